@@ -22,6 +22,7 @@ structure DS where
   s    : St
   ka   : Nat     -- µs
   wt   : Nat     -- µs
+  wska : Nat := 0 -- µs: the Upgrader's KeepaliveTime (0 = none: the upgrade clears the read deadline)
   dialT : Bool := false   -- the write timer in force was armed by DialAsyncTimeout: its closure carries ErrDialTimeout
   virt : Bool := false    -- virtual-descriptor case: timer handles and backlog are printed and compared
 
@@ -165,10 +166,12 @@ def opsOf (ds : DS) (ws : List String) (at_ : Nat) : Option (List Op) :=
   -- end-to-end tiers: what the server does, at its earliest possible time
   | "O" :: "conn" :: _ => some [.set .r (at_ + ds.ka)]
   | "O" :: "tconn" :: _ => some []                     -- std http.Server: no nbio deadline before the transfer
-  | "O" :: "wsup" :: _ => some [.set .r (at_ + ds.ka)]
-  | "O" :: "msg" :: _ => some [.set .r (at_ + ds.ka)]
-  | "O" :: "ping" :: _ => some [.set .r (at_ + ds.ka)]   -- heartbeats renew the keep-alive like data messages
-  | "O" :: "pong" :: _ => some [.set .r (at_ + ds.ka)]
+  -- Upgrade: `KeepaliveTime > 0 ⇒ SetReadDeadline(now + KeepaliveTime)`, else `SetReadDeadline(time.Time{})`: the HTTP
+  -- engine's keep-alive deadline does not survive the upgrade
+  | "O" :: "wsup" :: _ => some (if ds.wska == 0 then [.clear .r] else [.set .r (at_ + ds.wska)])
+  | "O" :: "msg" :: _ => some (if ds.wska == 0 then [] else [.set .r (at_ + ds.wska)])
+  | "O" :: "ping" :: _ => some (if ds.wska == 0 then [] else [.set .r (at_ + ds.wska)])   -- heartbeats renew like data messages
+  | "O" :: "pong" :: _ => some (if ds.wska == 0 then [] else [.set .r (at_ + ds.wska)])
   | _ => none
 
 partial def loop (h : IO.FS.Stream) (ds : DS) : IO Unit := do
@@ -183,7 +186,10 @@ partial def loop (h : IO.FS.Stream) (ds : DS) : IO Unit := do
     let tree := (Drv.field ws "tree").getD "fixed"
     let g := if tree == "pinned" then pinned else fixed
     IO.println "ok"
-    loop h { g, s := init, ka := num ws "ka" * 1000, wt := num ws "wt" * 1000, virt := ws.contains "virt" }
+    let wska := match Drv.field ws "wska" with
+      | some v => v.toNat! * 1000
+      | none => num ws "ka" * 1000
+    loop h { g, s := init, ka := num ws "ka" * 1000, wt := num ws "wt" * 1000, wska, virt := ws.contains "virt" }
   | "O" :: "req" :: _ =>
     -- HTTP exchange: OnComplete arms the write deadline (WriteTimeout), the response is written, the keep-alive
     -- read deadline is renewed; once the client holds the whole response (at2) the server's queue is empty
